@@ -742,10 +742,23 @@ let judge_valid f =
         if has f "apix" then
           List.iter (fun e ->
             match String.split_on_char ':' e with
-            | [name; st] ->
+            | [tagged; st] ->
+              let name, partner = (match String.split_on_char '#' tagged with
+                  | [n; k] -> n, (try int_of_string k with _ -> -1) | _ -> tagged, -1) in
+              (* partners: 0 null, 1 null with white space, 2 {}, 3 {"a":1}, 4 [], 5 1 *)
               if st = "panic" || (String.length st >= 5 && String.sub st 0 5 = "panic") then vs := ["C04", F ("panic in " ^ name)]
               else if not spec && (st = "ok" || st = "ok1") then
                 setf c16 (F (name ^ " accepts an ill-formed argument (the other one well formed)"))
+              else if spec && st <> "ok" then begin
+                (* well-formed texts must not be rejected as ill-formed: the combinations whose outcome does
+                   not depend on the value *)
+                let is_obj = (match t with Some (TObj _) -> true | _ -> false) in
+                let nonnull = (match t with Some TNull -> false | Some _ -> true | None -> false) in
+                if name = "MergePatch/2" && (partner = 2 || partner = 3) then setf c16 (F "MergePatch rejects a well-formed patch")
+                else if name = "MergePatch/1" && nonnull && (partner = 2 || partner = 3 || partner = 4 || partner = 5) then setf c16 (F "MergePatch rejects a well-formed document")
+                else if (name = "CreateMergePatch/1" || name = "CreateMergePatch/2") && is_obj && (partner = 2 || partner = 3) then
+                  setf c16 (F "CreateMergePatch rejects a well-formed object")
+              end
             | _ -> ()) (String.split_on_char ';' (get f "apix"));
         if String.length eq < 2 || String.sub eq 0 2 <> "ok" || mst = "panic" || cst = "panic" || (String.length ap >= 2 && String.sub ap 0 2 <> "ok")
         then vs := ["C04", F "panic in an entry point"]
@@ -896,7 +909,13 @@ let judge_apply4 f =
                   else F (Printf.sprintf "copy-limit error impl=%b model=%b/%b (legacy package, null counted 0/4)" impl_cl m0 m4));
      (* C18 *)
      let tdoc = parse_s doc in
-     let spelled_plainly = not (contains doc "\\" || contains patch "\\" || contains doc "<" || contains doc ">" || contains doc "&"
+     (* the property's restriction is on the strings that test operations compare (v4 compares
+        spellings): the document and the operation VALUES are spelled without escapes; the op / path /
+        from strings of the patch may be spelled in any way JSON allows *)
+     let values_txt = String.concat " " (List.concat_map (fun (op : operation) ->
+         match List.assoc_opt (bytes_of_string "value") op with
+         | Some (Some v) -> [string_of_bytes (print false v)] | _ -> []) ops) in
+     let spelled_plainly = not (contains doc "\\" || contains values_txt "\\" || contains doc "<" || contains doc ">" || contains doc "&"
                                 || contains patch "<" || contains patch ">" || contains patch "&") in
      let dom = (match tdoc with
          | Some t -> root_container t && tnodup t && in_domain_C01 ops && spelled_plainly && limit = 0
